@@ -11,12 +11,13 @@ from pycdlib import dr as drmod  # noqa: E402
 CFG = h.P.get('cfg') or skel.cfg_of()
 SK = SKELETONS[h.P.get('sk', 'sk1')]
 MAXLEN = h.P.get('maxlen', 0x3ffff800)
+MINLEN = h.P.get('minlen', 0)
 LAST_DETAIL = None
 
 
 def reader(l0: int, l1: int, l2: int) -> bool:
     """
-    pre: 0 <= l0 <= MAXLEN and 0 <= l1 <= MAXLEN and 0 <= l2 <= MAXLEN
+    pre: MINLEN <= l0 <= MAXLEN and MINLEN <= l1 <= MAXLEN and MINLEN <= l2 <= MAXLEN
     post: _
     """
     # C03.b (+ C09.a): the metadata written by the REAL write_fp, decoded by the independent reader
@@ -63,7 +64,10 @@ def reader(l0: int, l1: int, l2: int) -> bool:
                 return False
             ok = ok & (dl == r.get_data_length())
             if kind == 'd' or bool(r.get_data_length() != 0):
-                if not (r.rock_ridge is not None and (r.rock_ridge.is_symlink() or r.rock_ridge.child_link_record_exists())):
+                # Rock Ridge relocation: the ISO9660 view holds a placeholder FILE record (extent 0) whose CL entry names the moved
+                # directory; get_record() follows it and returns the directory itself.  CL/PL are C08's business, not this reader's.
+                placeholder = (kind == 'f' and r.is_dir())
+                if not placeholder and not (r.rock_ridge is not None and (r.rock_ridge.is_symlink() or r.rock_ridge.child_link_record_exists())):
                     ok = ok & (ext == r.extent_location())
         # Joliet (C09.a): an independent tree of UCS-2 names over the same data extents
         for (t, s), tree in trees.items():
@@ -80,7 +84,8 @@ def reader(l0: int, l1: int, l2: int) -> bool:
                 for p, r in japi.items():
                     ok = ok & (tree[p][2] == r.get_data_length())
                     if bool(r.get_data_length() != 0):
-                        ok = ok & (tree[p][1] == r.inode.extent_location())
+                        # (the El Torito boot catalog is a file without an inode: its record carries the extent itself)
+                        ok = ok & (tree[p][1] == (r.inode.extent_location() if r.inode is not None else r.extent_location()))
     except ref.Bad as e:
         LAST_DETAIL = str(e)
         return False
@@ -179,8 +184,14 @@ def obligations(tier):
         for c in cfgs:
             if sk == 'sk4' and not c['rr']:
                 continue
-            obs.append({'name': 'C03.b/%s/%s' % (sk, skel.cfg_name(c)), 'module': __name__, 'func': 'reader', 'params': {'sk': sk, 'cfg': c},
-                        'cond_timeout': 1200, 'path_timeout': 300, 'bounds': 'skeleton %s; config %s; three lengths in [0, 0x3ffff800]' % (sk, skel.cfg_name(c)),
+            params = {'sk': sk, 'cfg': c}
+            b = 'three lengths in [0, 0x3ffff800]'
+            if sk == 'sk3':
+                # El Torito boot images: non-empty, and the default load size (block-rounded length in 512-byte sectors) is a 16-bit field
+                params.update({'minlen': 1, 'maxlen': 16383 * 2048})
+                b = 'three lengths in [1, 33552384] (boot images)'
+            obs.append({'name': 'C03.b/%s/%s' % (sk, skel.cfg_name(c)), 'module': __name__, 'func': 'reader', 'params': params,
+                        'cond_timeout': 1200, 'path_timeout': 300, 'bounds': 'skeleton %s; config %s; %s' % (sk, skel.cfg_name(c), b),
                         'functions': ['PyCdlib.write_fp', 'PyCdlib._write_directory_records', 'DirectoryRecord.record', 'PrimaryOrSupplementaryVD.record',
                                       'PathTableRecord.record_little_endian', 'PathTableRecord.record_big_endian', 'VolumeDescriptorSetTerminator.record',
                                       '_reassign_vd_dirrecord_extents'],
